@@ -178,11 +178,15 @@ def open_file(f: FileOrPath,
       newline: Newline mode file should be opened in
       encoding: Encoding file should be opened in
     """
-    if not isinstance(f, (IOBase, t.BinaryIO, t.TextIO)):
+    if not isinstance(f, (IOBase, t.BinaryIO, t.TextIO)) and not hasattr(f, 'read' if mode == 'r' else 'write'):
         return open(f, mode, newline=newline, encoding=encoding)
 
     if isinstance(f, TextIOWrapper):
-        f.reconfigure(newline=newline, encoding=encoding)
+        try:
+            f.reconfigure(newline=newline, encoding=encoding)
+        except (ValueError, OSError):
+            # e.g. a file which has been read from already. Use it as it is
+            pass
     elif isinstance(f, t.TextIO):
         f = TextIOWrapper(f.buffer, newline=newline, encoding=encoding)
     elif isinstance(f, (BufferedIOBase, t.BinaryIO)):
